@@ -154,7 +154,8 @@ pub fn run(args: &Args) -> Report {
         try_variant(rep, v0.clone(), "n_verifier_friendly_commitment_layers + 1".into(), "n_verifier_friendly_commitment_layers".into(), stone6, nf + Felt::ONE);
         // main page: insertion, deletion, adjacent transposition at every position
         let n = pi0.main_page.len();
-        let positions: Vec<usize> = if n <= 80 || thorough { (0..=n).collect() } else { let mut p: Vec<usize> = (0..=n).collect(); rng.shuffle(&mut p); p.truncate(80); p };
+        let cap = if thorough { usize::MAX } else { 40 };
+        let positions: Vec<usize> = if n <= cap { (0..=n).collect() } else { let mut p: Vec<usize> = (0..=n).collect(); rng.shuffle(&mut p); p.truncate(cap); p };
         for &i in &positions {
             let mut v = v0.clone();
             v["main_page"].as_array_mut().unwrap().insert(i, json!({"address": hex(&rng.felt()), "value": hex(&rng.felt())}));
